@@ -86,6 +86,25 @@ func runC03(c map[string]interface{}) []Event {
 			}
 		})
 		return []Event{e}
+	case "box":
+		mn, mx := up(decPoint(c["min"], intDec)), up(decPoint(c["max"], intDec))
+		e := Event{"ev": "box", "cen2": []interface{}{codeBad, codeBad}, "area": -1}
+		e["out"] = safely(func() {
+			b := &geom.Bounds{Min: mn, Max: mx}
+			cen := b.Centroid()
+			q := func(v float64) int { // twice the centre, scaled back (exact)
+				w := math.Ldexp(v, 1-sh)
+				if math.IsNaN(w) || math.IsInf(w, 0) || math.Abs(w) > 1e6 || w != math.Round(w) {
+					return codeBad
+				}
+				return int(w)
+			}
+			e["cen2"] = []interface{}{q(cen.X), q(cen.Y)}
+			if a := math.Ldexp(b.Area(), -2*sh); a == math.Round(a) && math.Abs(a) < 1e6 {
+				e["area"] = int(a)
+			}
+		})
+		return []Event{e}
 	case "line", "len":
 		l := geom.LineString(decPath(c["path"], intDec))
 		q := decPoint(c["q"], intDec)
